@@ -131,7 +131,9 @@ func (r *Run) Thorough() bool { return r.Tier == "thorough" }
 
 // Lite: this binary runs as a part of another property's quick check (C12 re-runs the worlds of
 // other properties with its tracker): the largest scenario families are reduced.
-func (r *Run) Lite() bool { return r.Part != "" && r.Tier != "thorough" }
+func (r *Run) Lite() bool {
+	return r.Part != "" && r.Tier != "thorough" && os.Getenv("VERIF_PART_FULL") == ""
+}
 
 // Pick returns q in the quick tier and t in the thorough tier.
 func Pick[T any](r *Run, q, t T) T {
